@@ -798,7 +798,7 @@ func profiles(r *ev.Run, rng *rand.Rand) []profile {
 
 func main() {
 	r := ev.New("C07", "exploration")
-	r.Rule("SEQUENTIAL: one case = one operation of a seeded random history applied to ONE long-lived core.BasicCluster and to the slice model, followed by the comparison of pd's answers with linear scans. Every operation: region counts, average size, per-store counters/sizes and the statistics published into the store records (UpdateStoreStatus, refreshed for every touched store the way the server does), content of the cached object; every operation (thorough) or every 4th (quick): lookups, overlap/adjacent/scan queries around the touched range, store region sets, one random-pick probe; periodically: sampled and complete sweeps (every probe key, every boundary pair for alphabets up to 25 keys, scan limits around 16/99-101/127-129/1000-1025 in big worlds, every store, every cached region, every object handed out earlier must be unchanged, random-pick soundness and coverage). Region objects are built by NewRegionInfo, RegionFromHeartbeat, or get-edit-set: Clone(options) of the object obtained from the cache (targeted options for single conf changes); puts go through PutRegion or CheckAndPutRegion (stale epochs are generated on purpose; a rejected put must change nothing). Store-wide bursts (all leaders / peers / pending marks of a store leave and return) make single sub-indexes shrink to nothing and grow again. Worlds: ids 1..40 over 6-24 boundary keys on 8 stores (small), 40-120 keys (medium), 300-700 keys fully covered on 2-4 stores (large), one world of ~3000 (quick) / ~17000-20000 (thorough) regions loaded like a start-up with prefix-related key names (huge: two / three index levels). distinct = profile x operation kind x displaced regions x construction path x entry point x which of {range, peers, leader, pending, size} changed x flags x log2(live regions). CONCURRENT (free-running goroutines, race detector on): (1) one write stream (puts, removals, store-record refreshes) || 3 readers issuing single-call queries of every kind incl. PreCheckPutRegion, (1b) a free-running stream of leader transfers / size changes / re-insertions || readers of the getters that combine several index reads, (2) two concurrent streams of cache drops (GetRegion+RemoveRegion, as DropCacheRegion does under the cluster read lock) || readers; one case = one read, judged against every state it can have observed (writes finished before its call .. writes begun before its return, by logical ticks); distinct = family x query kind x sub-call x number of candidate states; a complete sweep follows at quiescence. BTREE sub-check: random insert/replace/delete/delete-min/max/clone/clear and drain-to-empty/refill bursts for degrees 2..64 against a sorted slice; distinct = degree x live trees x size bucket x levels x operation.")
+	r.Rule("SEQUENTIAL: one case = one operation of a seeded random history applied to ONE long-lived core.BasicCluster and to the slice model, followed by the comparison of pd's answers with linear scans. Every operation: region counts, average size, per-store counters/sizes and the statistics published into the store records (UpdateStoreStatus, refreshed for every touched store the way the server does), content of the cached object; every operation (thorough) or every 4th (quick): lookups, overlap/adjacent/scan queries around the touched range, store region sets, one random-pick probe; periodically: sampled and complete sweeps (every probe key, every boundary pair for alphabets up to 25 keys, scan limits around 16/99-101/127-129/1000-1025 in big worlds, every store, every cached region, every object handed out earlier must be unchanged, random-pick soundness and coverage). Region objects are built by NewRegionInfo, RegionFromHeartbeat, or get-edit-set: Clone(options) of the object obtained from the cache (targeted options for single conf changes); puts go through PutRegion or CheckAndPutRegion (stale epochs are generated on purpose; a rejected put must change nothing). Store-wide bursts (all leaders / peers / pending marks of a store leave and return) make single sub-indexes shrink to nothing and grow again. Worlds: ids 1..40 over 6-24 boundary keys on 8 stores (small), 40-120 keys (medium), 300-700 keys fully covered on 2-4 stores (large), one world of ~3000 (quick) / ~17000-20000 (thorough) regions loaded like a start-up with prefix-related key names (huge: two / three index levels). distinct = profile x operation kind x displaced regions x construction path x entry point x which of {range, peers, leader, pending, size} changed x flags x log2(live regions). CONCURRENT (free-running goroutines, race detector on): (1) one write stream (puts, removals, store-record refreshes) || 3 readers issuing single-call queries of every kind incl. PreCheckPutRegion, (1b) a free-running stream of leader transfers / size changes / re-insertions || readers of the getters that combine several index reads, (2) two concurrent streams of cache drops (GetRegion+RemoveRegion, as DropCacheRegion does under the cluster read lock) || readers; one case = one read, judged against every state it can have observed (writes finished before its call .. writes begun before its return, by logical ticks); distinct = family x query kind x sub-call x number of candidate states; a complete sweep follows at quiescence. ONE-FIELD GRID: on a fixed world (prefix-related keys with 0x00/0xff tails, a hole, unbounded ends, store ids 0 and 2^64-1, region id 2^64-1, a leaderless neighbour) a base region (4 variants) is put again with exactly one of 36 fields/aspects changed (size, keys, flow, epoch, leader to each kind of store / none, each peer role, pending, down, peer add/remove/move/re-id, reorder, each range edge, spelling of empty keys as nil) x {PutRegion, CheckAndPutRegion} x {fresh, heartbeat, clone}, complete sweep after each; plus sweeps of a brand-new empty cache and of a cache emptied and repopulated; distinct = variant x field x entry point x construction. Empty keys alternate between nil and empty slices in regions and in query arguments. THREE PARTIES: put stream on the lower half || drop stream on the upper half || readers (states = product of the halves); PARKED WRITER: a log core parks the put inside the write lock (at regionTree.update's debug line), a cache drop and 3 readers queue on the lock, all released together. BTREE sub-check: random insert/replace/delete/delete-min/max/clone/clear and drain-to-empty/refill bursts for degrees 2..64 against a sorted slice; distinct = degree x live trees x size bucket x levels x operation.")
 	r.Assume("core.BasicCluster and its RegionsInfo are driven directly (PutRegion / RemoveRegion with the region's current information, the only way the code base removes); no heartbeat admission logic is involved (that is C06)")
 	r.Assume("generated regions stay inside the zone the statement defines: start < end or unbounded end, at most one peer per store, the leader is a voter of the region or absent, pending and down peers are peers of the region; inverted query ranges and 'adjacent' probes that partially overlap cached regions are not judged (skipped_ambiguous)")
 	r.Assume("a random pick 'within key ranges' means a region lying completely inside one of the ranges (the documented behaviour, asserted by the repository's own tests); a pick may return nothing; coverage: every member of a candidate set of size 1..8 must be drawn within 400*|set| draws (for a uniform pick over the index range a miss has probability < 1e-13 per set)")
@@ -824,12 +824,14 @@ func main() {
 	btSeed := rng.Int63()
 	concSeed := btSeed ^ 0x5bd1e995
 	ok := true
-	if r.Thorough() || r.Shard == 0 {
+	only := os.Getenv("VERIF_C07_ONLY") // validation aid: run a single family (btree|hist|grid|conc|parked)
+	want := func(f string) bool { return only == "" || only == f }
+	if want("btree") && (r.Thorough() || r.Shard == 0) {
 		// first, so that a broken index structure is named as such before region histories trip over it
 		ok = btreePhase(r, rand.New(rand.NewSource(btSeed)))
 	}
 	for i, prof := range profs {
-		if !ok {
+		if !ok || !want("hist") {
 			break
 		}
 		if !r.Thorough() && r.Shards > 1 {
@@ -845,16 +847,22 @@ func main() {
 		}
 		r.Count("histories", 1)
 	}
-	if ok {
+	if ok && want("grid") {
 		// every single-field update of a cached region, through every entry point (grid.go)
 		ok = gridPhase(r, rand.New(rand.NewSource(concSeed^0x77)))
 	}
-	if ok {
+	if ok && want("conc") {
 		// readers against one write stream / against concurrent cache drops (see conc.go); after the
 		// sequential histories, whose witnesses are shrunk and more specific
 		ok = concPhase(r, rand.New(rand.NewSource(concSeed)))
 	}
-	r.Floor(int64(r.Pick(20000, 200000)))
+	if ok && want("parked") {
+		// a writer parked inside the write lock, a drop and readers queued behind it (park.go)
+		ok = parkedPhase(r, rand.New(rand.NewSource(concSeed^0x1234)))
+	}
+	if only == "" {
+		r.Floor(int64(r.Pick(20000, 200000)))
+	}
 	pprof.StopCPUProfile()
 	r.Finish()
 }
